@@ -183,6 +183,27 @@ def gen_trace_program(rng):
             emit("}")
             frames.append(("%s()" % name, ln))
             callee = "%s()" % name
+        elif rng.chance(1, 6):
+            # plain recursion: several activations of ONE function, all but the innermost executing the same statement - the trace has one
+            # entry per activation, identical entries included (a tail call is a call: its caller is still active)
+            name = "rp%d" % uid
+            reps = 2 + rng.below(3)
+            form = rng.choice(["tail", "value", "stmt"])
+            emit("fn %s(n) {" % name)
+            la = emit("    if n == 0 { " + body_stmt + " }")
+            if form == "tail":
+                lb = emit("    return %s(n - 1);" % name)
+            elif form == "value":
+                lb = emit("    var got%d = %s(n - 1);" % (uid, name))
+                emit("    return got%d;" % uid)
+            else:
+                lb = emit("    %s(n - 1);" % name)
+                emit("    return 0;")
+            emit("}")
+            frames.append(("%s()" % name, la))
+            for _ in range(reps):
+                frames.append(("%s()" % name, lb))
+            callee = "%s(%d)" % (name, reps)
         elif k == 0 and rng.chance(1, 2):
             # lambdas that capture locals are created before the statement of interest (their Closure instruction carries operand
             # bytes per captured variable: every byte needs its line-table entry or later lines shift)
@@ -315,6 +336,18 @@ FAULTS = [
 LONG_PREFIXES = [254, 255, 256, 32766, 32767, 32768, 65534, 65535, 65536, 70000, 131075, 1000003]
 
 
+def runaway_cases():
+    """Unbounded recursion ends in 'Stack overflow.' with one trace entry per active call: FRAMES_MAX - 1 identical ones and the script's."""
+    first = "Unhandled IndexError: Stack overflow."
+    out = []
+    for body, call_line in (("fn f() { f(); }\nf();\n", 1), ("fn f() {\n    return f();\n}\nf();\n", 2), ("fn f(n) {\n    var pad = n;\n    return f(n + 1) + 1;\n}\nvar before = 1;\nf(0);\n", 3)):
+        nlines = body.count("\n")
+        out.append((body, {}, "IndexError", first, ['[module "main", line %d] in f()' % call_line] * 63 + ['[module "main", line %d] in script' % nlines]))
+    out.append(("fn a(n) {\n    return b(n);\n}\nfn b(n) {\n    return a(n);\n}\na(0);\n", {}, "IndexError", first,
+                (['[module "main", line 2] in a()', '[module "main", line 5] in b()'] * 32)[:63] + ['[module "main", line 7] in script']))
+    return out
+
+
 def long_file_cases():
     """The failing statement and its call site stand after N empty lines, N around every power of two a narrower line table could wrap at;
     in the main script and in an imported module."""
@@ -347,6 +380,7 @@ def correspondence(ctx, model_ok=True):
             cases.append((j["program"], j.get("modules", {}), j["expected_kind"], j.get("expected_first"), j["expected_trace"]))
     n_corpus = len(cases)
     cases += long_file_cases()
+    cases += runaway_cases()
     cases += [gen_trace_program(rng.fork("t%d" % i)) for i in range(n_tr)]
     plist = [("trace%d" % i, c[0], c[1]) for i, c in enumerate(cases)]
     nontrivial = set()
